@@ -71,7 +71,7 @@ def splitAtCuts (data : Bytes) (cuts : List Nat) : List Bytes :=
     | c :: cs => rest.take (c - pos) :: go (rest.drop (c - pos)) (max c pos) cs
   go data 0 cuts
 
-def handle : Sexp → Sexp
+def handle1 : Sexp → Sexp
   | .list [.atom "req", .list frags, .list bad] =>
     match bytesList frags, bytesList bad with
     | some fr, some bad =>
@@ -142,7 +142,7 @@ def handle : Sexp → Sexp
         (({ st := (({ badUrls := bad } : ReqSt), []) } : SConn), fc.1.map Arrival.bytes ++ (if fc.2 then [Arrival.closed] else [])))
       let n := (table.map (fun e => e.2.length)).foldl max 0 + 3
       let handlers := if kind == "wsgi" then wsgiHandlers else bareHandlers
-      match serverRun handlers (fun _ => true) n table with
+      match serverRun handlers (fun _ => some 100) n table with
       | .error c => if kind == "wsgi" then .list [sym c, .list []] else .list [sym c]
       | .ok t =>
         if kind == "wsgi" then
@@ -161,5 +161,11 @@ def handle : Sexp → Sexp
       .list [match st.1.phase with | .escaped c => sym c | _ => sym "-"]
     | _, _ => sym "bad-request"
   | _ => sym "bad-request"
+
+/-- `(multi r1 r2 ...)`: several independent requests in one line (independent parser instances); `(echo x)`: x -/
+def handle : Sexp → Sexp
+  | .list (.atom "multi" :: subs) => .list (subs.map handle1)
+  | .list [.atom "echo", x] => x
+  | r => handle1 r
 
 def main : IO Unit := serve handle
